@@ -611,22 +611,24 @@ def instantiate_path(cp, args, inst, caller_held, callee, amap=None, writes=None
     out = []
     retv = ('unk', 'ret')
     ret_held = caller_held
+    # (terms of the callee are relative to the values its parameters had at entry — its own heap has already resolved reads
+    # that follow its writes — so substitution always uses the entry values; `cur` only accumulates what the parameters
+    # point to at exit)
+    cur = {}
     for e in cp.events:
         if writes is not None and e.kind == 'assign' and e.d['place'][0] == 'arg':
-            writes.append((e.d['place'][1], subst_term(e.d['value'], amap, inst)))
-            # later reads of the parameter inside the helper see the new value
-            amap = dict(amap)
-            amap[e.d['place'][1]] = subst_term(e.d['value'], amap, inst)
+            v_ = subst_term(e.d['value'], amap, inst)
+            cur[e.d['place'][1]] = v_
+            writes.append((e.d['place'][1], v_))
         elif writes is not None and e.kind == 'assign' and e.d['place'][0] == 'field' and e.d['place'][1][0] == 'arg' and isinstance(e.d['place'][1][1], int):
             # `param.field = v` through a `&mut` parameter: the caller's aggregate gets the new field
             k = e.d['place'][1][1]
             newv = subst_term(e.d['value'], amap, inst)
-            cur = amap.get(k)
-            upd = set_field(cur, e.d['place'][2], newv) if cur is not None else None
+            base = cur.get(k, amap.get(k))
+            upd = set_field(base, e.d['place'][2], newv) if base is not None else None
             if upd is not None:
+                cur[k] = upd
                 writes.append((k, upd))
-                amap = dict(amap)
-                amap[k] = upd
         d = {}
         for k, v in e.d.items():
             if k in ('term', 'value', 'place', 'result', 'on'):
@@ -1138,9 +1140,11 @@ class Fn:
                             memo = {k: v for k, v in memo.items() if not mentions(k, pt)}
                         base = lhs['local']
                         if base in env and not any(p == '*' for p in lhs['proj']):
-                            # field write into a local aggregate: forget the precise value
+                            # field write into a local aggregate: a literal aggregate gets the new field (a context struct
+                            # threaded through a loop keeps its other fields), anything else loses its precise value
                             env = dict(env)
-                            env[base] = ('unk', self.lname.get(base) or f'_{base}')
+                            upd = set_field(env[base], lhs['proj'][0], val) if len(lhs['proj']) == 1 and isinstance(lhs['proj'][0], str) else None
+                            env[base] = upd if upd is not None else ('unk', self.lname.get(base) or f'_{base}')
                 t = x['term']
                 k = t['k']
                 if k == 'goto':
